@@ -252,14 +252,19 @@ def execute(schedule, ctx):
 
             if n == 0:
                 continue
-            if op['op'] == 'reindex':
-                spec['span']['origin'] = spec['span'].get('origin', 0) + op['shift']
-                spec['span']['n'] = n + op.get('grow', 0)
-                made = [m.reindex(spans.make_span(spec['span']), fill_value=0.5) for m in (A, B, C, R)]
-                ctx.probe('history:reindex-before-solve')
-            else:
-                made = [m.copy() if op['route'] == 'copy' else _copy.deepcopy(m) for m in (A, B, C, R)]
-                ctx.probe('history:copy-before-solve')
+            try:
+                if op['op'] == 'reindex':
+                    spec['span']['origin'] = spec['span'].get('origin', 0) + op['shift']
+                    spec['span']['n'] = n + op.get('grow', 0)
+                    made = [m.reindex(spans.make_span(spec['span']), fill_value=0.5) for m in (A, B, C, R)]
+                    ctx.probe('history:reindex-before-solve')
+                else:
+                    made = [m.copy() if op['route'] == 'copy' else _copy.deepcopy(m) for m in (A, B, C, R)]
+                    ctx.probe('history:copy-before-solve')
+            except Exception as e_:
+                # (a well-formed copy / reindex onto a span of the same kind: C11 / C12 own the clause, the history ends here)
+                chk('history/' + op['op'] + '-of-a-well-formed-model-failed', False, {'exc': type(e_).__name__, 'msg': str(e_)[:160], 'span': spec['span']})
+                return
             A, B, C, R = made
             span = A.__dict__['span']
             n = len(span)
